@@ -16,7 +16,7 @@ func init() {
 	property("C02",
 		"Static conformance of the condition mechanism: (a) the operator negation table is the De Morgan / comparison-complement table and an involution; (b) var comparisons render goto_if_<cc> for exactly the accepted operator set, closed under negation, with compare vs compare_var_to_value chosen by the value() marker; (c) flag / defeated comparisons branch on 'set' exactly for (==,TRUE) or (!=,FALSE); (d) the leaf defaults stored by the parser for bare, negated and explicit forms; (e) the short-circuit wiring of leaf / && / || chunks (value-origin templates); (f) binary operators stored in the AST are && or || (or their negation) of the token that was tested; (g) the precedence shape: the right operand of && is a single operand, continuation goes through the right-side parser, and the right-side parser is only entered when more than one operand is allowed; (h) negation is distributed to every sub-expression, leaf and operator exactly under the negated flag. Guards of the negation clauses are compared by equivalence, not membership (C02.h, C02.f); chunk fields are written only under construction (C02.i).",
 		[]string{"oracle: README operator semantics and the goto_if_* mnemonics of the decomp script macros", "scheme argument of DESIGN §4 C02; the recursive descent as a whole accepting exactly the documented grammar is not decided"},
-		"C02.a", "C02.b", "C02.c", "C02.d", "C02.e", "C02.f", "C02.g", "C02.h", "C02.i", "C01.f", "C01.e", "C01.h", "C10.g", "C18.m", "C19.d", "C18.d", "C18.n", "C10.a")
+		"C02.a", "C02.b", "C02.c", "C02.d", "C02.e", "C02.f", "C02.g", "C02.h", "C02.i", "C01.f", "C01.e", "C01.h", "C10.g", "C18.m", "C19.d", "C18.d", "C18.n", "C10.a", "C19.b", "C19.e", "C05.a")
 
 	register(&Rule{ID: "C02.a", Doc: "negation table of boolean/comparison operators", Floor: 9, Run: c02a})
 	register(&Rule{ID: "C02.b", Doc: "var comparison rendering table and compare mnemonic; operator domain closure", Floor: 9, Run: c02b})
